@@ -223,6 +223,78 @@ fn feats(f: &[&str]) -> Vec<String> {
 
 const ALL: &[&str] = &["serde", "regex", "arbitrary", "new_unchecked"];
 
+// ------------------------------------------------------------------------------------ C12 derive gate
+
+/// C12's premise: `Eq`/`Ord` on a float newtype is only permitted together with `finite`. Every
+/// validation shape without `finite` x every derive set containing `Eq` must be rejected; the same
+/// shapes with `finite` in any position are the accepted controls.
+pub fn c12_gate_units() -> Vec<Unit> {
+    let mut out: Vec<Unit> = vec![];
+    for (inner, ty, m) in [(Inner::F32, "f32", "ff32"), (Inner::F64, "f64", "ff64")] {
+        let shapes: Vec<(&str, String)> = vec![
+            ("no-validation", String::new()),
+            ("sanitize-only", "sanitize(with = |x| x)".into()),
+            ("one-bound", "validate(less = 5.0)".into()),
+            ("two-bounds", "validate(greater_or_equal = 0.0, less_or_equal = 1.0)".into()),
+            ("expr-bounds", "validate(greater = -KA, less = KB)".into()),
+            ("predicate", "validate(predicate = |x| !x.is_nan())".into()),
+            ("bounds+predicate", "validate(greater = 0.0, predicate = |x| x.is_finite(), less = 9.0)".into()),
+            ("custom", format!("validate(with = {m}::v_small, error = CustomErr)")),
+            ("sanitize+custom", format!("sanitize(with = |x| x), validate(with = {m}::v_small, error = CustomErr)")),
+        ];
+        let derives = [
+            ("eq", "PartialEq, Eq"),
+            ("ord", "PartialEq, Eq, PartialOrd, Ord"),
+            ("ord-first", "Ord, PartialOrd, Eq, PartialEq, Debug, Clone, Copy"),
+            ("eq+entry-points", "Debug, Clone, Copy, PartialEq, Eq, FromStr, AsRef"),
+        ];
+        for (sn, shape) in &shapes {
+            for (dn, dv) in derives {
+                let attr = if shape.is_empty() { format!("derive({dv})") } else { format!("{shape}, derive({dv})") };
+                let (source, decl) = raw_unit(inner, &attr, &format!("pub struct T({ty});"), "");
+                out.push(Unit {
+                    id: String::new(),
+                    class: format!("derive-gate:{dn}-without-finite:{sn}"),
+                    features: feats(ALL),
+                    source,
+                    expect: Expect::Reject,
+                    expect_errors: vec!["NaN".into()],
+                    tests_must_fail: vec![],
+                    tests_must_pass: vec![],
+                    decl,
+                    nontrivial: true,
+                });
+            }
+        }
+        for (cn, attr) in [
+            ("finite-alone", "validate(finite)"),
+            ("finite-first", "validate(finite, less = 5.0)"),
+            ("finite-last", "validate(greater_or_equal = 0.0, less_or_equal = 1.0, finite)"),
+            ("finite-middle", "validate(greater = 0.0, finite, predicate = |x| *x != 3.0)"),
+            ("finite+sanitize", "sanitize(with = |x| x), validate(finite)"),
+        ] {
+            let attr = format!("{attr}, derive(Debug, Clone, Copy, PartialEq, Eq, PartialOrd, Ord)");
+            let (source, decl) = raw_unit(inner, &attr, &format!("pub struct T({ty});"), "");
+            out.push(Unit {
+                id: String::new(),
+                class: format!("derive-gate:control:{cn}"),
+                features: feats(ALL),
+                source,
+                expect: Expect::Accept,
+                expect_errors: vec![],
+                tests_must_fail: vec![],
+                tests_must_pass: vec![],
+                decl,
+                nontrivial: true,
+            });
+        }
+    }
+    for (i, u) in out.iter_mut().enumerate() {
+        u.id = format!("g{:04}", i + 1);
+    }
+    out
+}
+
 // ------------------------------------------------------------------------------------ C08
 
 /// Declarations of the documented grammar with injected faults, paired with the verdict of an
@@ -485,7 +557,7 @@ pub fn c08_units(seed: u64, thorough: bool) -> Vec<Unit> {
     let rnd = catalogue::finalize(crate::random::random_decls(seed ^ 0xC08, n_random), "x");
     for (i, d) in rnd.iter().enumerate() {
         let mut d = d.clone();
-        d.type_name = "T".into();
+        d.type_name = if d.generic == Generic::None { "T".into() } else { "W".into() };
         let feats_all = feats(ALL);
         out.push(Unit {
             id: String::new(),
@@ -499,7 +571,8 @@ pub fn c08_units(seed: u64, thorough: bool) -> Vec<Unit> {
             decl: d.decl_text(),
             nontrivial: d.sans.len() + d.std_vals().len() + d.derives.len() / 4 >= 3,
         });
-        if let Some((fault, fd, features)) = inject_fault(&d, i) {
+        // the fault catalogue is written for non-generic declarations
+        if let Some((fault, fd, features)) = inject_fault(&d, i).filter(|_| d.generic == Generic::None) {
             out.push(Unit {
                 id: String::new(),
                 class: format!("random:fault:{fault}"),
@@ -763,7 +836,8 @@ pub fn c05_units(seed: u64, thorough: bool) -> Vec<Unit> {
     }
     // seed-dependent: the same attack catalogue against proptest-generated declarations
     let rnd = catalogue::finalize(crate::random::random_decls(seed ^ 0xC05, if thorough { 160 } else { 14 }), "x");
-    for (ri, d) in rnd.iter().enumerate() {
+    // (the attack templates name the type `T`: generic declarations are covered by the structural scan instead)
+    for (ri, d) in rnd.iter().filter(|d| d.generic == Generic::None).enumerate() {
         let mut d = d.clone();
         d.type_name = "T".into();
         d.new_unchecked = false;
@@ -891,7 +965,7 @@ pub fn c15_units(seed: u64, thorough: bool) -> Vec<Unit> {
     let rnd = catalogue::finalize(crate::random::random_decls(seed ^ 0xC15, if thorough { 800 } else { 160 }), "m");
     for d in rnd.iter().filter(|d| d.inner != Inner::Str) {
         let mut d = d.clone();
-        d.type_name = "T".into();
+        d.type_name = if d.generic == Generic::None { "T".into() } else { "W".into() };
         let irregular = d.derives.iter().filter(|t| !matches!(t, Tr::Debug | Tr::Clone | Tr::Copy | Tr::PartialEq | Tr::PartialOrd | Tr::Hash)).count();
         out.push(Unit {
             id: String::new(),
